@@ -11,19 +11,31 @@ from .. import pdadom as P
 from .. import rxdom as X
 from . import c16
 from .. import c20nx
+from .. import c20txt
 from ..core import CaseResult, outcome, case_key
 
 ID = "C20"
-LEVEL = "other"
+LEVEL = "proof"
 RULE = ("random automata / PDAs / FSTs with JSON-representable state and symbol values (ints and strings, several start "
         "states, epsilon transitions, parallel edges, multi-symbol pushes and outputs, no epsilon spellings and no label "
         "separators) round-tripped through to_networkx / from_networkx and compared structurally; random CFGs over "
         "whitespace-free tokens (lower-case variables, capitalised terminals, epsilon productions) round-tripped through "
         "to_text / from_text and compared by production sets and by the verified membership oracle; random EBNF texts (several lines per head, empty right-hand sides) "
         "whose boxes are compared, by the verified equivalence oracle, with the union of the alternatives of each "
-        "head. Non-trivial: machine with >=2 states and >=2 transitions / grammar with >=2 productions.")
-EXPLANATION = 'Round trips are decided structurally (canonical form of the re-imported object equals that of the original) and, for grammars and recursive automata, by the verified membership / equivalence oracles; the networkx graph container and the json module are exercised, not modelled. The token-level text codec of grammars (Variable.to_text, Terminal.to_text, the component classification of CFG._read_line) is modelled in Lean (Pfl/Model/Codec.lean), proved to round-trip every plain token (read_varToText, read_terToText) and compared with the implementation on random ASCII tokens.'
-THEOREMS = ["Pfl.Rx.box_lang",
+        "head. A second stream per case: machines over ints and strings whose state names coincide with the decoration "
+        "nodes of the export (starting_q0, INITIAL_STACK_HIDDEN), symbols such as 0, '0', 'a b', '[', non-ASCII letters: "
+        "exported graph, round trip and the import of a perturbed graph against the Lean model of networkx; grammars over "
+        "plain tokens (quotes, '-', '>', non-ASCII capitals, zero-width space, marker look-alikes) and adversarial ones: "
+        "splitlines / strip / split on texts full of unusual blanks and line boundaries, lines written, productions read "
+        "from exported and edited texts against the character-level Lean model. Non-trivial: machine with >=2 states and >=2 transitions / grammar with >=2 productions.")
+EXPLANATION = 'to_networkx / from_networkx (three classes, over a model of the graph container, decoration-node name clashes included) and to_text / from_text (character level: splitlines / strip / split with Python\'s blank and line-boundary sets, VAR:/TER: markers) are modelled in Lean; FA.roundtrip, PDA.roundtrip, FST.roundtrip and fromText_toText prove that the import of the export gives back the same states, markings, transitions / the same productions for every machine / grammar in the quantifier of the property; box_lang proves that a recursive-automaton box accepts the denotation of its body. Exported graphs and texts, the import of exported and of edited graphs and texts, and the string primitives are compared with the models on every case; json.dumps / json.loads and str.isupper are parameters of the theorems (assumed inverse / true on ASCII capitals) handed to the driver as tables.'
+THEOREMS = ["Pfl.Nx.FA.roundtrip",
+            "Pfl.Nx.PDA.roundtrip",
+            "Pfl.Nx.FST.roundtrip",
+            "Pfl.Nx.PDA.roundtrip_needs_hidden",
+            "Pfl.TextCodec.fromText_toText",
+            "Pfl.TextCodec.fromText_toText_needs_not_special",
+            "Pfl.Rx.box_lang",
             "Pfl.LabelCodec.readPdaLabel_pdaLabel",
             "Pfl.LabelCodec.readFstLabel_fstLabel",
             "Pfl.LabelCodec.readPdaLabel_pdaLabel_clear",
@@ -181,7 +193,7 @@ def generate(rng, tier):
         if "S" not in [h for h, _ in lines]:
             lines.append(["S", "a"])
         toks = [gen_token(rng) for _ in range(4)]
-        yield {"fa": fa, "pda": pda, "fst": fst, "g": g, "ebnf": lines, "toks": toks, "nx": c20nx.gen(rng)}
+        yield {"fa": fa, "pda": pda, "fst": fst, "g": g, "ebnf": lines, "toks": toks, "nx": c20nx.gen(rng), "txt": c20txt.gen(rng)}
 
 
 def run_case(case, drv):
@@ -300,4 +312,7 @@ def run_case(case, drv):
     # ---- networkx export / import against the Lean model (names coinciding with decoration nodes included) ----
     if "nx" in case:
         c20nx.run(case["nx"], drv, res)
+    # ---- to_text / from_text against the character-level Lean model ---------------------------------------------
+    if "txt" in case:
+        c20txt.run(case["txt"], drv, res)
     return res
